@@ -168,6 +168,34 @@ def run_setting(cfg, sid, transport, full, seed):
         elif not (refdec.same(b, v) or b == v):
             cls = 'resolution' if t in ('Decimal', 'Voltage', 'Current', 'CurrentS') else 'value'
             vio.append((f'reads-back/{t}/{cls}', f'{sid}: wrote {vs}, read back {b!r}', vs))
+    # read-back after OTHER reads: the written value survives whatever the object reads in between (bulk settings read,
+    # another setting, the runtime data), immediately and after an idle gap
+    other = [o.id_ for o in inv.settings() if o.id_ != sid and not (o.offset < s.offset + nregs and s.offset < o.offset + 2)]
+    for v, _ in combos[:2]:
+        vs = v.hex() if isinstance(v, bytes) else str(v)
+        for between in ('settings_data', 'other-setting', 'runtime', 'all+idle'):
+            if r.call(inv.write_setting, sid, v)[0] != 'ok':
+                continue
+            if between in ('settings_data', 'all+idle'):
+                r.call(inv.read_settings_data)
+            if between in ('other-setting', 'all+idle') and other:
+                r.call(inv.read_setting, other[0])
+                r.call(inv.read_setting, other[-1])
+            if between in ('runtime', 'all+idle'):
+                r.call(inv.read_runtime_data)
+            if between == 'all+idle':
+                r.loop.settle(7.0)
+            back = r.call(inv.read_setting, sid)
+            n += 1
+            ok = False
+            if back[0] == 'ok':
+                if isinstance(v, bytes):
+                    ref = refdec.decode(s, v)
+                    ok = ref is refdec.NOVALUE or (hasattr(back[1], 'start_h') and not refdec.group_matches(back[1], ref))
+                else:
+                    ok = refdec.same(back[1], v) or back[1] == v or t in ('Decimal', 'Voltage', 'Current', 'CurrentS')
+            if not ok:
+                vio.append((f'reads-back/{t}/after-other-reads', f'{sid}: wrote {vs}, read {between}, read back {str(back)[:60]}', vs))
     # repeated writes: the same value again after the registers were changed behind the library's back (device side)
     # and after an overlapping setting was written through the library - every write_setting() must reach the inverter
     others = [o for o in inv.settings() if o is not s and in_scope(cfg, o) and
